@@ -1,54 +1,17 @@
 //@ target: src/layer_4/tcp.rs
 //@ mod: verif_tcp
 // Harnesses over the real `layer_4::tcp::repl` (C06 SYN policy, C07 data path arithmetic,
-// C09 growth law, C12 reply-typed segments, C03 port mirroring, C20 events).
+// C09 growth law, C12 reply-typed segments, C03 port mirroring, C08/C19 hand-over).
+use crate::client::ClientInfo;
 use crate::verif_util::*;
-use std::net::{IpAddr, Ipv4Addr, Ipv6Addr};
+use crate::{proto, synackcookie, Masscanned};
 use pnet::packet::ip::IpNextHeaderProtocols;
 use pnet::packet::tcp::{MutableTcpPacket, TcpFlags, TcpPacket};
 use pnet::packet::Packet;
 use pnet::util::MacAddr;
-use crate::client::ClientInfo;
-use crate::{proto, synackcookie, Masscanned};
+use std::net::{IpAddr, Ipv4Addr, Ipv6Addr};
 
-/// Contract stub for the layer above: arbitrary reply of <= 3 bytes; may move `port.dst`
-/// (what the STUN responder does); never touches `port.src`.
-pub fn proto_repl_stub<'a>(
-    _data: &'a [u8],
-    _m: &Masscanned,
-    ci: &mut ClientInfo,
-    _tcb: Option<&mut proto::TCPControlBlock>,
-) -> Option<Vec<u8>> {
-    if kani::any() {
-        ci.port.dst = Some(kani::any());
-    }
-    if kani::any() {
-        let n: usize = kani::any();
-        kani::assume(n <= 3);
-        let mut v = Vec::with_capacity(4);
-        let mut i = 0;
-        while i < n {
-            v.push(kani::any());
-            i += 1;
-        }
-        Some(v)
-    } else {
-        None
-    }
-}
-
-fn syn_policy(v6: bool) {
-    let mut buf: [u8; 24] = kani::any();
-    // data offset 5 or 6 (options), reserved bits and all 9 flag bits free
-    kani::assume(buf[12] >> 4 == 5 || buf[12] >> 4 == 6);
-    let n: usize = if kani::any() { 20 } else { 24 };
-    let tcp_req = TcpPacket::new(&buf[..n]).unwrap();
-    let flags = tcp_req.get_flags();
-    kani::assume(flags & TcpFlags::SYN != 0);
-    // SYN segments that also carry PSH and ACK take the data path: decided by c07_data_* (which
-    // also asserts that no reply on that path ever carries SYN)
-    kani::assume(flags & (TcpFlags::PSH | TcpFlags::ACK) != (TcpFlags::PSH | TcpFlags::ACK));
-    let masscanned = ms_plain([kani::any(), kani::any()], MacAddr::new(0, 1, 2, 3, 4, 5));
+fn any_ci(v6: bool) -> ClientInfo {
     let mut ci = ClientInfo::new();
     if v6 {
         ci.ip.src = Some(IpAddr::V6(any_ip6()));
@@ -58,71 +21,508 @@ fn syn_policy(v6: bool) {
         ci.ip.dst = Some(IpAddr::V4(any_ip4()));
     }
     ci.transport = Some(IpNextHeaderProtocols::Tcp);
+    ci
+}
+
+/// Arms the `synackcookie::generate` contract stub: one arbitrary cookie for this frame's
+/// flow; records what 4-tuple/key the frame carries so the stub can check its arguments.
+fn arm_cookie(ci: &ClientInfo, req: &TcpPacket, m: &Masscanned) -> u32 {
+    let rec = cookie_rec();
+    rec.value = kani::any();
+    rec.ip = ci.ip;
+    rec.sport = req.get_source();
+    rec.dport = req.get_destination();
+    rec.key = m.synack_key;
+    rec.value
+}
+
+/// connection table with exactly `n` entries under arbitrary distinct keys.  The number of
+/// entries is concrete per harness instance (a symbolic container shape makes CBMC run out
+/// of memory - measured); the keys are symbolic, so an entry may or may not be this flow's.
+fn any_table(n: usize) {
+    let k1: u32 = kani::any();
+    let k2: u32 = kani::any();
+    if n >= 1 {
+        proto::add_tcb(k1);
+    }
+    if n >= 2 {
+        kani::assume(k1 != k2);
+        proto::add_tcb(k2);
+    }
+}
+
+fn syn_policy(v6: bool, nt: usize, n: usize) {
+    let buf: [u8; 24] = kani::any();
+    // data offset 5 or 6 (options), reserved bits and all 9 flag bits free
+    kani::assume(buf[12] >> 4 == 5 || buf[12] >> 4 == 6);
+    let tcp_req = TcpPacket::new(&buf[..n]).unwrap();
+    let flags = tcp_req.get_flags();
+    kani::assume(flags & TcpFlags::SYN != 0);
+    // SYN segments that also carry PSH and ACK take the data path: decided by c07_data_* (which
+    // also asserts that no reply on that path ever carries SYN)
+    kani::assume(flags & (TcpFlags::PSH | TcpFlags::ACK) != (TcpFlags::PSH | TcpFlags::ACK));
+    let masscanned = ms_plain([kani::any(), kani::any()], MacAddr::new(0, 1, 2, 3, 4, 5));
+    let mut ci = any_ci(v6);
+    any_table(nt);
+    let cookie = arm_cookie(&ci, &tcp_req, &masscanned);
+    let q: u32 = kani::any();
+    let before = proto::is_tcb_set(q);
     let r = repl(&tcp_req, &masscanned, &mut ci);
+    assert!(proto::is_tcb_set(q) == before, "C09: a SYN changed the connection table");
+    assert!(proto_rec().calls == 0, "C08: a SYN reached the application layer");
     let rest = flags & !TcpFlags::SYN;
     let allowed = rest & !(TcpFlags::PSH | TcpFlags::URG | TcpFlags::CWR | TcpFlags::ECE) == 0
         && !(rest & TcpFlags::CWR != 0 && rest & TcpFlags::ECE != 0);
     // the oracle is the property text: SYN + subset of {PSH,URG,CWR,ECE} without CWR&ECE
     match r {
-        Some(p) if p.get_flags() & TcpFlags::SYN != 0 => {
-            assert!(allowed, "C06: SYN-ACK sent for a flag combination outside the policy");
+        Some(p) => {
+            assert!(allowed, "C06: SYN answered for a flag combination outside the policy");
             assert!(p.get_flags() == TcpFlags::SYN | TcpFlags::ACK, "C06: reply flags are not exactly SYN|ACK");
             assert!(
                 p.get_acknowledgement() == tcp_req.get_sequence().wrapping_add(1),
                 "C06: SYN-ACK does not acknowledge seq+1"
             );
-            assert!(p.packet().len() == 4 * p.get_data_offset() as usize, "C06: SYN-ACK carries payload");
             assert!(p.get_data_offset() >= 5, "C04: data offset below header size");
+            assert!(p.packet().len() == 4 * p.get_data_offset() as usize, "C06: SYN-ACK carries payload / C04: data offset");
             assert!(p.get_window() != 0, "C04: zero window on SYN-ACK");
             assert!(p.get_source() == tcp_req.get_destination(), "C03: source port not mirrored");
             assert!(p.get_destination() == tcp_req.get_source(), "C03: destination port not mirrored");
-            // the cookie is the documented function of the 4-tuple and the key
-            let mut ci2 = ClientInfo::new();
-            ci2.ip = ci.ip;
-            ci2.port.src = Some(tcp_req.get_source());
-            ci2.port.dst = Some(tcp_req.get_destination());
-            let c = synackcookie::generate(&ci2, &masscanned.synack_key).unwrap();
-            assert!(p.get_sequence() == c, "C06: SYN-ACK sequence is not the flow's cookie");
+            assert!(cookie_rec().calls >= 1 && cookie_rec().args_ok, "C06: cookie not computed from the frame's own 4-tuple and key");
+            assert!(p.get_sequence() == cookie, "C06: SYN-ACK sequence is not the flow's cookie");
             kani::cover!(true, "synack sent");
         }
-        _ => {
-            // silence, or (SYN|PSH|ACK behind a valid cookie) a data ACK, which is not a SYN-ACK
-            assert!(!allowed, "C06: allowed SYN not answered with a SYN-ACK");
-            kani::cover!(true, "syn not answered with synack");
+        None => {
+            assert!(!allowed, "C06: allowed SYN not answered");
+            kani::cover!(true, "syn ignored");
+            kani::cover!(flags == TcpFlags::SYN | TcpFlags::ACK, "C12 synack segment ignored");
         }
     }
 }
 
 //# harness: c06_syn_policy_v4
-//# props: C06 C03 C12
+//# props: C06 C03 C09 C12 C08
 //# tier: quick
-//# encodes: layer_4::tcp::repl
-//# encodes: synackcookie::generate (real SipHash-2-4 via siphasher)
-//# bounds: all 9 flag bits with SYN set and not both PSH and ACK (192 combinations; the other 64 are decided by c07_data_*) x reserved bits x seq/ack/ports/window/urgent full width x key 2x64 bit x IPv4 addresses full width; segment length 20 or 24, data offset 5 or 6
-//# stubs: proto::repl -> arbitrary Option<Vec<u8>> of <= 3 bytes, may rewrite port.dst (only reachable on the PSH|ACK arm)
+//# encodes: layer_4::tcp::repl (SYN arm and everything before it)
+//# encodes: proto::tcb::{add_tcb,is_tcb_set}
+//# bounds: all 9 flag bits with SYN set and not both PSH and ACK (192 combinations; the other 64 are decided by c07_data_*) x reserved bits x seq/ack/ports/window/urgent full width x key 2x64 bit x IPv4 addresses full width; segment length 20 with data offset 5 or 6; connection table with 1 entry under arbitrary key(s)
+//# stubs: proto::repl -> recording contract stub (must not be reached)
+//# stubs: synackcookie::generate -> one arbitrary u32 per flow, arguments recorded and checked (the real function is decided by c06_cookie_*)
 //# assumes: client_info carries both IP addresses (set by layer 3 before the call)
 //# out: payload lengths > 4 bytes (payload is not read on the SYN arm)
 //# cover: synack sent
-//# cover: syn not answered with synack
+//# cover: syn ignored
+//# cover: C12 synack segment ignored
 #[kani::proof]
-#[kani::unwind(6)]
-#[kani::stub(crate::proto::repl, proto_repl_stub)]
+#[kani::unwind(18)]
+#[kani::stub(crate::proto::repl, crate::verif_util::proto_repl_stub)]
+#[kani::stub(crate::synackcookie::generate, crate::verif_util::generate_stub)]
 fn c06_syn_policy_v4() {
-    syn_policy(false)
+    syn_policy(false, 1, 20)
 }
 
 //# harness: c06_syn_policy_v6
-//# props: C06 C03 C12
+//# props: C06 C03 C09 C12 C08
+//# tier: quick
+//# encodes: layer_4::tcp::repl (SYN arm and everything before it)
+//# encodes: proto::tcb::{add_tcb,is_tcb_set}
+//# bounds: all 9 flag bits with SYN set and not both PSH and ACK (192 combinations; the other 64 are decided by c07_data_*) x reserved bits x seq/ack/ports/window/urgent full width x key 2x64 bit x IPv6 addresses full width; segment length 24 with data offset 5 or 6; connection table with 1 entry under arbitrary key(s)
+//# stubs: proto::repl -> recording contract stub (must not be reached)
+//# stubs: synackcookie::generate -> one arbitrary u32 per flow, arguments recorded and checked (the real function is decided by c06_cookie_*)
+//# assumes: client_info carries both IP addresses (set by layer 3 before the call)
+//# out: payload lengths > 4 bytes (payload is not read on the SYN arm)
+//# cover: synack sent
+//# cover: syn ignored
+//# cover: C12 synack segment ignored
+#[kani::proof]
+#[kani::unwind(18)]
+#[kani::stub(crate::proto::repl, crate::verif_util::proto_repl_stub)]
+#[kani::stub(crate::synackcookie::generate, crate::verif_util::generate_stub)]
+fn c06_syn_policy_v6() {
+    syn_policy(true, 1, 24)
+}
+
+//# harness: c06_syn_policy_v4_t0
+//# props: C06 C03 C09 C12 C08
+//# tier: thorough
+//# encodes: layer_4::tcp::repl (SYN arm and everything before it)
+//# encodes: proto::tcb::{add_tcb,is_tcb_set}
+//# bounds: all 9 flag bits with SYN set and not both PSH and ACK (192 combinations; the other 64 are decided by c07_data_*) x reserved bits x seq/ack/ports/window/urgent full width x key 2x64 bit x IPv4 addresses full width; segment length 24 with data offset 5 or 6; connection table with 0 entries under arbitrary key(s)
+//# stubs: proto::repl -> recording contract stub (must not be reached)
+//# stubs: synackcookie::generate -> one arbitrary u32 per flow, arguments recorded and checked (the real function is decided by c06_cookie_*)
+//# assumes: client_info carries both IP addresses (set by layer 3 before the call)
+//# out: payload lengths > 4 bytes (payload is not read on the SYN arm)
+//# cover: synack sent
+//# cover: syn ignored
+//# cover: C12 synack segment ignored
+#[kani::proof]
+#[kani::unwind(18)]
+#[kani::stub(crate::proto::repl, crate::verif_util::proto_repl_stub)]
+#[kani::stub(crate::synackcookie::generate, crate::verif_util::generate_stub)]
+fn c06_syn_policy_v4_t0() {
+    syn_policy(false, 0, 24)
+}
+
+//# harness: c06_syn_policy_v4_t2
+//# props: C06 C03 C09 C12 C08
+//# tier: thorough
+//# encodes: layer_4::tcp::repl (SYN arm and everything before it)
+//# encodes: proto::tcb::{add_tcb,is_tcb_set}
+//# bounds: all 9 flag bits with SYN set and not both PSH and ACK (192 combinations; the other 64 are decided by c07_data_*) x reserved bits x seq/ack/ports/window/urgent full width x key 2x64 bit x IPv4 addresses full width; segment length 20 with data offset 5 or 6; connection table with 2 entries under arbitrary key(s)
+//# stubs: proto::repl -> recording contract stub (must not be reached)
+//# stubs: synackcookie::generate -> one arbitrary u32 per flow, arguments recorded and checked (the real function is decided by c06_cookie_*)
+//# assumes: client_info carries both IP addresses (set by layer 3 before the call)
+//# out: payload lengths > 4 bytes (payload is not read on the SYN arm)
+//# cover: synack sent
+//# cover: syn ignored
+//# cover: C12 synack segment ignored
+#[kani::proof]
+#[kani::unwind(18)]
+#[kani::stub(crate::proto::repl, crate::verif_util::proto_repl_stub)]
+#[kani::stub(crate::synackcookie::generate, crate::verif_util::generate_stub)]
+fn c06_syn_policy_v4_t2() {
+    syn_policy(false, 2, 20)
+}
+
+/// PSH|ACK segments (any other flag bits, including SYN/FIN/RST): cookie gate, seq/ack
+/// arithmetic, table growth law, hand-over of exactly the payload to the application layer.
+/// n = segment length, doff = data offset, rl = length of the application reply (when any).
+fn data_path(v6: bool, nt: usize, n: usize, doff: usize, rl: usize) {
+    let mut buf: [u8; 27] = kani::any();
+    buf[12] = (buf[12] & 0x0f) | ((doff as u8) << 4);
+    let tcp_req = TcpPacket::new(&buf[..n]).unwrap();
+    let flags = tcp_req.get_flags();
+    kani::assume(flags & (TcpFlags::PSH | TcpFlags::ACK) == (TcpFlags::PSH | TcpFlags::ACK));
+    let masscanned = ms_plain([kani::any(), kani::any()], MacAddr::new(0, 1, 2, 3, 4, 5));
+    let mut ci = any_ci(v6);
+    any_table(nt);
+    proto_rec().cfg_reply_len = rl;
+    let cookie = arm_cookie(&ci, &tcp_req, &masscanned);
+    let q: u32 = kani::any();
+    let q_before = proto::is_tcb_set(q);
+    let known_flow = proto::is_tcb_set(cookie);
+    let ack = tcp_req.get_acknowledgement();
+    let valid = ack.wrapping_sub(1) == cookie;
+    let plen = n - 4 * doff;
+    let r = repl(&tcp_req, &masscanned, &mut ci);
+    let rec = proto_rec();
+    assert!(cookie_rec().calls >= 1 && cookie_rec().args_ok, "C07: cookie not computed from the frame's own 4-tuple and key");
+    if !known_flow && !valid {
+        assert!(r.is_none(), "C07: data segment answered without a valid cookie");
+        assert!(proto::is_tcb_set(q) == q_before, "C09: unvalidated data segment changed the connection table");
+        assert!(rec.calls == 0, "C07: unvalidated data reached the application layer");
+        kani::cover!(true, "unvalidated data dropped");
+        kani::cover!(ack == 0, "unvalidated data with ack 0 dropped");
+    } else {
+        assert!(
+            proto::is_tcb_set(q) == (q_before || q == cookie),
+            "C09: connection table is not old table + this flow's cookie"
+        );
+        assert!(rec.calls == 1, "C11: application layer not called exactly once for an accepted segment");
+        assert!(rec.tcb_some, "C08: accepted segment handled without its control block");
+        assert!(rec.cookie == Some(cookie), "C08: wrong cookie handed to the application layer");
+        assert!(rec.data_len == plen, "C19: application layer did not get exactly the segment payload");
+        if plen == 3 {
+            assert!(
+                rec.data[0] == buf[n - 3] && rec.data[1] == buf[n - 2] && rec.data[2] == buf[n - 1],
+                "C19: payload bytes altered before the application layer"
+            );
+        }
+        let p = match r {
+            Some(p) => p,
+            None => {
+                assert!(false, "C07: accepted data segment not answered");
+                return;
+            }
+        };
+        let want = if rec.reply_len > 0 { TcpFlags::ACK | TcpFlags::PSH } else { TcpFlags::ACK };
+        assert!(p.get_flags() == want, "C07: reply flags are not ACK (+PSH iff data)");
+        assert!(p.get_sequence() == ack, "C07: reply sequence is not the peer's acknowledgement number");
+        assert!(
+            p.get_acknowledgement() == tcp_req.get_sequence().wrapping_add(plen as u32),
+            "C07: reply does not acknowledge seq + payload length"
+        );
+        assert!(p.get_data_offset() >= 5, "C04: data offset below header size");
+        let hl = 4 * p.get_data_offset() as usize;
+        assert!(p.packet().len() == hl + rec.reply_len, "C07/C04: reply length is not header + application data");
+        let b = p.packet();
+        if rec.reply_len > 0 {
+            assert!(b[hl] == rec.reply[0] && b[hl + rec.reply_len - 1] == rec.reply[rec.reply_len - 1], "C07: application data altered");
+        }
+        // ports: mirror of client_info as left by the application layer (STUN may move port.dst)
+        assert!(p.get_destination() == tcp_req.get_source(), "C03: destination port is not the peer's source port");
+        assert!(Some(p.get_source()) == ci.port.dst, "C03: source port is not the (possibly moved) contacted port");
+        kani::cover!(rec.reply_len > 0, "data answered with PSH");
+        kani::cover!(rec.reply_len == 0, "data acked only");
+        kani::cover!(!known_flow && valid && ack == 0, "first data with ack 0 (cookie 0xffffffff)");
+        kani::cover!(known_flow && !valid, "known flow, any ack");
+        kani::cover!(tcp_req.get_sequence() > 0xfffffffd && plen == 3, "ack wraps");
+        kani::cover!(flags & TcpFlags::SYN != 0, "SYN|PSH|ACK behind a cookie is data, reply has no SYN");
+    }
+}
+
+//# harness: c07_data_v4
+//# props: C07 C09 C03 C08 C19 C11@thorough
+//# tier: quick
+//# encodes: layer_4::tcp::repl (PSH|ACK arm)
+//# encodes: proto::tcb::{add_tcb,is_tcb_set,get_tcb}
+//# bounds: PSH and ACK set, the other 7 flag bits free (incl. SYN, FIN, RST); seq/ack/ports/key/IPv4 addresses full width (incl. ack = 0 and wrap-around); segment length 23, data offset 5, payload 3 bytes; application reply None or 2 arbitrary bytes; connection table with 1 entry under arbitrary key(s) (a validated flow is one whose cookie is in the table - C09 growth law)
+//# stubs: proto::repl -> recording contract stub: None or Some(2 arbitrary bytes), may rewrite client_info.port.dst
+//# stubs: synackcookie::generate -> one arbitrary u32 per flow, arguments recorded and checked
+//# assumes: data offset >= 5 and header inside the segment (malformed offsets: no-panic only, see c01_tcp_nopanic)
+//# out: other payload / reply lengths (length enters only through payload().len(), wrapping_add and concat)
+//# cover: unvalidated data dropped
+//# cover: data answered with PSH
+//# cover: data acked only
+//# cover: known flow, any ack
+//# cover: ack wraps
+#[kani::proof]
+#[kani::unwind(18)]
+#[kani::stub(crate::proto::repl, crate::verif_util::proto_repl_stub)]
+#[kani::stub(crate::synackcookie::generate, crate::verif_util::generate_stub)]
+fn c07_data_v4() {
+    data_path(false, 1, 23, 5, 2)
+}
+
+//# harness: c07_data_v4_nopayload
+//# props: C07 C09
+//# tier: quick
+//# encodes: layer_4::tcp::repl (PSH|ACK arm)
+//# encodes: proto::tcb::{add_tcb,is_tcb_set,get_tcb}
+//# bounds: PSH and ACK set, the other 7 flag bits free (incl. SYN, FIN, RST); seq/ack/ports/key/IPv4 addresses full width (incl. ack = 0 and wrap-around); segment length 20, data offset 5, payload 0 bytes; application reply None or 1 arbitrary bytes; connection table with 1 entry under arbitrary key(s) (a validated flow is one whose cookie is in the table - C09 growth law)
+//# stubs: proto::repl -> recording contract stub: None or Some(1 arbitrary bytes), may rewrite client_info.port.dst
+//# stubs: synackcookie::generate -> one arbitrary u32 per flow, arguments recorded and checked
+//# assumes: data offset >= 5 and header inside the segment (malformed offsets: no-panic only, see c01_tcp_nopanic)
+//# out: other payload / reply lengths (length enters only through payload().len(), wrapping_add and concat)
+//# cover: unvalidated data dropped
+//# cover: data answered with PSH
+//# cover: data acked only
+//# cover: known flow, any ack
+#[kani::proof]
+#[kani::unwind(18)]
+#[kani::stub(crate::proto::repl, crate::verif_util::proto_repl_stub)]
+#[kani::stub(crate::synackcookie::generate, crate::verif_util::generate_stub)]
+fn c07_data_v4_nopayload() {
+    data_path(false, 1, 20, 5, 1)
+}
+
+//# harness: c07_data_v6_opts
+//# props: C07 C09 C03 C19
+//# tier: thorough
+//# encodes: layer_4::tcp::repl (PSH|ACK arm)
+//# encodes: proto::tcb::{add_tcb,is_tcb_set,get_tcb}
+//# bounds: PSH and ACK set, the other 7 flag bits free (incl. SYN, FIN, RST); seq/ack/ports/key/IPv6 addresses full width (incl. ack = 0 and wrap-around); segment length 27, data offset 6, payload 3 bytes; application reply None or 3 arbitrary bytes; connection table with 1 entry under arbitrary key(s) (a validated flow is one whose cookie is in the table - C09 growth law)
+//# stubs: proto::repl -> recording contract stub: None or Some(3 arbitrary bytes), may rewrite client_info.port.dst
+//# stubs: synackcookie::generate -> one arbitrary u32 per flow, arguments recorded and checked
+//# assumes: data offset >= 5 and header inside the segment (malformed offsets: no-panic only, see c01_tcp_nopanic)
+//# out: other payload / reply lengths (length enters only through payload().len(), wrapping_add and concat)
+//# cover: unvalidated data dropped
+//# cover: data answered with PSH
+//# cover: data acked only
+//# cover: known flow, any ack
+//# cover: ack wraps
+#[kani::proof]
+#[kani::unwind(18)]
+#[kani::stub(crate::proto::repl, crate::verif_util::proto_repl_stub)]
+#[kani::stub(crate::synackcookie::generate, crate::verif_util::generate_stub)]
+fn c07_data_v6_opts() {
+    data_path(true, 1, 27, 6, 3)
+}
+
+//# harness: c07_data_v4_t0
+//# props: C07 C09
+//# tier: thorough
+//# encodes: layer_4::tcp::repl (PSH|ACK arm)
+//# encodes: proto::tcb::{add_tcb,is_tcb_set,get_tcb}
+//# bounds: PSH and ACK set, the other 7 flag bits free (incl. SYN, FIN, RST); seq/ack/ports/key/IPv4 addresses full width (incl. ack = 0 and wrap-around); segment length 23, data offset 5, payload 3 bytes; application reply None or 2 arbitrary bytes; connection table with 0 entries under arbitrary key(s) (a validated flow is one whose cookie is in the table - C09 growth law)
+//# stubs: proto::repl -> recording contract stub: None or Some(2 arbitrary bytes), may rewrite client_info.port.dst
+//# stubs: synackcookie::generate -> one arbitrary u32 per flow, arguments recorded and checked
+//# assumes: data offset >= 5 and header inside the segment (malformed offsets: no-panic only, see c01_tcp_nopanic)
+//# out: other payload / reply lengths (length enters only through payload().len(), wrapping_add and concat)
+//# cover: unvalidated data dropped
+//# cover: data answered with PSH
+//# cover: data acked only
+//# cover: ack wraps
+#[kani::proof]
+#[kani::unwind(18)]
+#[kani::stub(crate::proto::repl, crate::verif_util::proto_repl_stub)]
+#[kani::stub(crate::synackcookie::generate, crate::verif_util::generate_stub)]
+fn c07_data_v4_t0() {
+    data_path(false, 0, 23, 5, 2)
+}
+
+//# harness: c07_data_v4_t2
+//# props: C07 C09 C08
+//# tier: thorough
+//# encodes: layer_4::tcp::repl (PSH|ACK arm)
+//# encodes: proto::tcb::{add_tcb,is_tcb_set,get_tcb}
+//# bounds: PSH and ACK set, the other 7 flag bits free (incl. SYN, FIN, RST); seq/ack/ports/key/IPv4 addresses full width (incl. ack = 0 and wrap-around); segment length 23, data offset 5, payload 3 bytes; application reply None or 2 arbitrary bytes; connection table with 2 entries under arbitrary key(s) (a validated flow is one whose cookie is in the table - C09 growth law)
+//# stubs: proto::repl -> recording contract stub: None or Some(2 arbitrary bytes), may rewrite client_info.port.dst
+//# stubs: synackcookie::generate -> one arbitrary u32 per flow, arguments recorded and checked
+//# assumes: data offset >= 5 and header inside the segment (malformed offsets: no-panic only, see c01_tcp_nopanic)
+//# out: other payload / reply lengths (length enters only through payload().len(), wrapping_add and concat)
+//# cover: unvalidated data dropped
+//# cover: data answered with PSH
+//# cover: data acked only
+//# cover: known flow, any ack
+//# cover: ack wraps
+#[kani::proof]
+#[kani::unwind(18)]
+#[kani::stub(crate::proto::repl, crate::verif_util::proto_repl_stub)]
+#[kani::stub(crate::synackcookie::generate, crate::verif_util::generate_stub)]
+fn c07_data_v4_t2() {
+    data_path(false, 2, 23, 5, 2)
+}
+
+/// every segment without SYN and without PSH&ACK-both: FIN|ACK handshake, silence for
+/// bare ACK / RST / RST|ACK, nothing reaches the application layer, table untouched
+fn other_segments(v6: bool, nt: usize, n: usize) {
+    let buf: [u8; 24] = kani::any();
+    kani::assume(buf[12] >> 4 == 5 || buf[12] >> 4 == 6);
+    let tcp_req = TcpPacket::new(&buf[..n]).unwrap();
+    let flags = tcp_req.get_flags();
+    kani::assume(flags & TcpFlags::SYN == 0);
+    kani::assume(flags & (TcpFlags::PSH | TcpFlags::ACK) != (TcpFlags::PSH | TcpFlags::ACK));
+    let masscanned = ms_plain([kani::any(), kani::any()], MacAddr::new(0, 1, 2, 3, 4, 5));
+    let mut ci = any_ci(v6);
+    any_table(nt);
+    arm_cookie(&ci, &tcp_req, &masscanned);
+    let q: u32 = kani::any();
+    let before = proto::is_tcb_set(q);
+    let r = repl(&tcp_req, &masscanned, &mut ci);
+    assert!(proto::is_tcb_set(q) == before, "C09: a non-data segment changed the connection table");
+    assert!(proto_rec().calls == 0, "C08: a non-data segment reached the application layer");
+    if flags == TcpFlags::FIN | TcpFlags::ACK {
+        let p = match r {
+            Some(p) => p,
+            None => {
+                assert!(false, "C07: bare FIN|ACK not answered");
+                return;
+            }
+        };
+        assert!(p.get_flags() == TcpFlags::FIN | TcpFlags::ACK, "C07: FIN|ACK not answered with FIN|ACK");
+        assert!(p.get_acknowledgement() == tcp_req.get_sequence().wrapping_add(1), "C07: FIN|ACK reply does not acknowledge seq+1");
+        assert!(p.get_sequence() == tcp_req.get_acknowledgement(), "C07: FIN|ACK reply sequence is not the peer's ack");
+        assert!(p.get_source() == tcp_req.get_destination() && p.get_destination() == tcp_req.get_source(), "C03: ports not mirrored");
+        assert!(p.get_data_offset() >= 5 && p.packet().len() == 4 * p.get_data_offset() as usize, "C04: FIN|ACK reply length / data offset");
+        kani::cover!(true, "finack answered");
+        return;
+    }
+    if flags == TcpFlags::ACK || flags == TcpFlags::RST || flags == TcpFlags::RST | TcpFlags::ACK {
+        assert!(r.is_none(), "C07/C12: bare ACK or RST segment answered");
+        kani::cover!(flags == TcpFlags::RST, "rst ignored");
+        kani::cover!(flags == TcpFlags::ACK, "ack ignored");
+    }
+    if let Some(p) = &r {
+        assert!(p.get_flags() & TcpFlags::SYN == 0, "C06: SYN-flagged reply to a segment without SYN");
+    }
+}
+
+//# harness: c07_other_v4
+//# props: C07 C09 C12 C08
+//# tier: quick
+//# encodes: layer_4::tcp::repl (ACK, RST, FIN|ACK and default arms)
+//# bounds: all flag words without SYN and without PSH&ACK-both (7 free bits incl. NS), reserved bits, seq/ack/ports full width, segment length 24 (data offset 5 or 6), table with 1 entry under an arbitrary key
+//# stubs: proto::repl -> recording contract stub (must not be reached)
+//# stubs: synackcookie::generate -> one arbitrary u32 per flow
+//# out: what other flag combinations (e.g. FIN alone, URG) elicit - the property does not say; only 'no SYN in the reply, no state change' is asserted for them
+//# cover: finack answered
+//# cover: rst ignored
+//# cover: ack ignored
+#[kani::proof]
+#[kani::unwind(18)]
+#[kani::stub(crate::proto::repl, crate::verif_util::proto_repl_stub)]
+#[kani::stub(crate::synackcookie::generate, crate::verif_util::generate_stub)]
+fn c07_other_v4() {
+    other_segments(false, 1, 24)
+}
+
+//# harness: c07_other_v6
+//# props: C07 C09 C12
+//# tier: thorough
+//# encodes: layer_4::tcp::repl (ACK, RST, FIN|ACK and default arms)
+//# bounds: as c07_other_v4 over IPv6, segment length 20, empty table
+//# stubs: proto::repl -> recording contract stub (must not be reached)
+//# stubs: synackcookie::generate -> one arbitrary u32 per flow
+//# cover: finack answered
+//# cover: rst ignored
+#[kani::proof]
+#[kani::unwind(18)]
+#[kani::stub(crate::proto::repl, crate::verif_util::proto_repl_stub)]
+#[kani::stub(crate::synackcookie::generate, crate::verif_util::generate_stub)]
+fn c07_other_v6() {
+    other_segments(true, 0, 20)
+}
+
+fn tcp_nopanic(n: usize, nt: usize) {
+    let buf: [u8; 25] = kani::any();
+    let tcp_req = TcpPacket::new(&buf[..n]).unwrap();
+    let masscanned = ms_plain([kani::any(), kani::any()], MacAddr::new(0, 1, 2, 3, 4, 5));
+    let mut ci = any_ci(false);
+    any_table(nt);
+    arm_cookie(&ci, &tcp_req, &masscanned);
+    let r = repl(&tcp_req, &masscanned, &mut ci);
+    kani::cover!(r.is_some(), "reply produced");
+    kani::cover!(r.is_none(), "silence");
+    kani::cover!(buf[12] >> 4 > 6, "data offset beyond the segment");
+    kani::cover!(buf[12] >> 4 < 5, "data offset below 5");
+}
+
+//# harness: c01_tcp_nopanic_20
+//# props: C01
 //# tier: quick
 //# encodes: layer_4::tcp::repl
-//# encodes: synackcookie::generate (real SipHash-2-4 via siphasher)
-//# bounds: as c06_syn_policy_v4 with full-width IPv6 addresses
-//# stubs: proto::repl -> arbitrary Option<Vec<u8>> of <= 3 bytes, may rewrite port.dst
-//# cover: synack sent
-//# cover: syn not answered with synack
+//# bounds: segment of 20 bytes, all header bytes symbolic incl. data offsets 0..15 that lie about the header size, all 512 flag words; table with 1 entry; IPv4
+//# stubs: proto::repl -> recording contract stub
+//# stubs: synackcookie::generate -> one arbitrary u32 per flow
+//# out: longer segments (payload is only sliced by pnet from the data offset)
+//# cover: reply produced
+//# cover: silence
+//# cover: data offset beyond the segment
+//# cover: data offset below 5
 #[kani::proof]
-#[kani::unwind(6)]
-#[kani::stub(crate::proto::repl, proto_repl_stub)]
-fn c06_syn_policy_v6() {
-    syn_policy(true)
+#[kani::unwind(18)]
+#[kani::stub(crate::proto::repl, crate::verif_util::proto_repl_stub)]
+#[kani::stub(crate::synackcookie::generate, crate::verif_util::generate_stub)]
+fn c01_tcp_nopanic_20() {
+    tcp_nopanic(20, 1)
+}
+
+//# harness: c01_tcp_nopanic_25
+//# props: C01
+//# tier: quick
+//# encodes: layer_4::tcp::repl
+//# bounds: segment of 25 bytes, all header bytes symbolic incl. data offsets 0..15 that lie about the header size, all 512 flag words; table with 1 entry; IPv4
+//# stubs: proto::repl -> recording contract stub
+//# stubs: synackcookie::generate -> one arbitrary u32 per flow
+//# out: longer segments (payload is only sliced by pnet from the data offset)
+//# cover: reply produced
+//# cover: silence
+//# cover: data offset beyond the segment
+//# cover: data offset below 5
+#[kani::proof]
+#[kani::unwind(18)]
+#[kani::stub(crate::proto::repl, crate::verif_util::proto_repl_stub)]
+#[kani::stub(crate::synackcookie::generate, crate::verif_util::generate_stub)]
+fn c01_tcp_nopanic_25() {
+    tcp_nopanic(25, 1)
+}
+
+//# harness: c01_tcp_nopanic_22
+//# props: C01
+//# tier: thorough
+//# encodes: layer_4::tcp::repl
+//# bounds: segment of 22 bytes, all header bytes symbolic incl. data offsets 0..15 that lie about the header size, all 512 flag words; table with 0 entries; IPv4
+//# stubs: proto::repl -> recording contract stub
+//# stubs: synackcookie::generate -> one arbitrary u32 per flow
+//# out: longer segments (payload is only sliced by pnet from the data offset)
+//# cover: reply produced
+//# cover: silence
+//# cover: data offset beyond the segment
+//# cover: data offset below 5
+#[kani::proof]
+#[kani::unwind(18)]
+#[kani::stub(crate::proto::repl, crate::verif_util::proto_repl_stub)]
+#[kani::stub(crate::synackcookie::generate, crate::verif_util::generate_stub)]
+fn c01_tcp_nopanic_22() {
+    tcp_nopanic(22, 0)
 }
